@@ -197,15 +197,15 @@ func sorted(x []string) []string {
 
 // StepObs is what was observed at one step of a history
 type StepObs struct {
-	Edit        string   `json:"edit"`
-	RebuildDiff string   `json:"rebuild_diff,omitempty"` // plain context Rebuild() vs fresh
-	WatchDiff   string   `json:"watch_diff,omitempty"`   // watch-mode context build vs fresh
-	Changed     bool     `json:"changed"`                // fresh result differs from the fresh result before the edit
-	Dirty       []string `json:"dirty"`                  // paths reported dirty by the previous build's predicates
-	Missed      bool     `json:"missed,omitempty"`       // Changed && no dirty path
-	Flaky       bool     `json:"flaky,omitempty"`        // fresh builds of the same tree disagree among themselves
-	ApplyErr    string   `json:"apply_err,omitempty"`
-	FreshErrors int      `json:"fresh_errors"`
+	Edit        string    `json:"edit"`
+	RebuildDiff string    `json:"rebuild_diff,omitempty"` // plain context Rebuild() vs fresh
+	WatchDiff   string    `json:"watch_diff,omitempty"`   // watch-mode context build vs fresh
+	Changed     bool      `json:"changed"`                // fresh result differs from the fresh result before the edit
+	Dirty       []string  `json:"dirty"`                  // paths reported dirty by the previous build's predicates
+	Missed      bool      `json:"missed,omitempty"`       // Changed && no dirty path
+	Flaky       bool      `json:"flaky,omitempty"`        // fresh builds of the same tree disagree among themselves
+	ApplyErr    string    `json:"apply_err,omitempty"`
+	FreshErrors int       `json:"fresh_errors"`
 	Events      []CacheEv `json:"-"`
 }
 
